@@ -633,7 +633,18 @@ func (h *harness) exec(ctx context.Context, n *NodeSpec, arg any, anyStyle bool)
 	if o.Nested > 0 {
 		// a batch of its own, run from inside this item with the item's context
 		simrt.Emit(simrt.Event{Kind: "nested_start", N: n.ID, V: v, I: item + 1, S1: fmt.Sprint(o.Nested - 1)})
-		_, nerr := flyt.Run(ctx, h.nodes[o.Nested-1], h.store)
+		saved := *st // the nested run may be a re-entrant run of this very node object
+		var nerr error
+		if st.visits < 8 { // (a shrink candidate may nest without end; the model calls such a scenario too long)
+			_, nerr = flyt.Run(ctx, h.nodes[o.Nested-1], h.store)
+		}
+		if o.Nested-1 == n.ID {
+			simrt.Locked(func() {
+				visits := st.visits
+				*st = saved
+				st.visits = visits
+			})
+		}
 		simrt.Emit(simrt.Event{Kind: "nested_end", N: n.ID, V: v, I: item + 1, S1: h.reg.describeErr(nerr)})
 	}
 	if o.Panic {
